@@ -1,1 +1,198 @@
-/-! STUB — property C17 is not built yet. -/
+import Martian.Lemmas.HarLog
+/-!
+C17 — The HAR log returns every exchange once, in arrival order, across any history.
+
+Only property theorems and non-vacuity examples live here.  `run init 0 ops` is the
+pointer-level model (ring + index map, `Model/HarLog.lean`) executed on the history `ops`;
+`Spec.run`, `logAfter` are the list specification.  An entry is identified by the index of the
+operation that recorded its request (`rq`); `rs` is the index of the operation that recorded the
+attached response.  Quantifiers: every history (any length, any IDs), every reachable heap.
+-/
+namespace Martian.Props.C17
+open Martian Martian.HarLog
+
+/-! ### Refinement: the ring surgery implements the list specification -/
+
+/-- Every observation of the pointer-level model, on every history, is the specification's. -/
+theorem heap_refines_spec (ops : List Op) : run init 0 ops = Spec.run [] 0 ops :=
+  run_refines ops init [] 0 Reach_init
+
+/-- After every history the heap is a well-formed ring (walking `next` from `tail` visits exactly
+    the indexed nodes once, `len(entries)` = number of nodes) representing the abstract log. -/
+theorem ring_invariant_reachable (ops : List Op) : Reach (after init 0 ops) (logAfter ops) :=
+  after_reach ops init [] 0 Reach_init
+
+/-- No nil dereference in `ExportAndReset`, and every loop ends within `len(entries)` rounds. -/
+theorem never_panics_nor_diverges (ops : List Op) :
+    Obs.panic ∉ run init 0 ops ∧ Obs.diverge ∉ run init 0 ops := by
+  rw [heap_refines_spec]; exact Spec.run_safe ops [] 0
+
+/-- RecordRequest with a fresh ID appends at the end (arrival order). -/
+theorem request_appended_if_fresh (h : Heap) (l : Log) (id : String) (t : Nat)
+    (hr : Reach h l) (hf : Spec.hasId l id = false) :
+    (recordRequest h id t).2 = .ok ∧ Reach (recordRequest h id t).1 (l ++ [⟨id, t, none⟩]) := by
+  have := step_sim h l t (.req id) hr
+  simp only [step, Spec.step, Spec.req, hf, Bool.false_eq_true, if_false] at this
+  exact ⟨this.2, this.1⟩
+
+/-- A duplicate request ID is rejected and the log is not disturbed. -/
+theorem duplicate_rejected_log_undisturbed (h : Heap) (l : Log) (id : String) (t : Nat)
+    (hr : Reach h l) (hd : Spec.hasId l id = true) :
+    (recordRequest h id t).2 = .dup ∧ Reach (recordRequest h id t).1 l := by
+  have := step_sim h l t (.req id) hr
+  simp only [step, Spec.step, Spec.req, hd, if_true] at this
+  exact ⟨this.2, this.1⟩
+
+/-- RecordResponse attaches the response to the entry with that ID and touches no other entry. -/
+theorem response_attached_to_own_id (h : Heap) (l : Log) (id : String) (t : Nat) (hr : Reach h l) :
+    Reach (recordResponse h id t)
+      (l.map fun e => if e.id = id then { e with rs := some t } else e) :=
+  (step_sim h l t (.res id) hr).1
+
+/-- A response for an unknown (or already reset / already returned) ID changes nothing at all. -/
+theorem orphan_response_ignored (h : Heap) (l : Log) (id : String) (t : Nat)
+    (hr : Reach h l) (hf : Spec.hasId l id = false) : recordResponse h id t = h := by
+  obtain ⟨ns, r, rfl⟩ := hr
+  rw [r.hasId] at hf
+  unfold recordResponse
+  cases hg : h.entries.get id with
+  | none => rfl
+  | some a => rw [hg] at hf; cases hf
+
+/-- Export returns the whole log, in order. -/
+theorem export_is_the_log (h : Heap) (l : Log) (hr : Reach h l) : exportLog h = .log l :=
+  (step_sim h l 0 .exp hr).2
+
+/-- ExportAndReset returns exactly the completed entries and keeps exactly the pending ones,
+    both in their original order. -/
+theorem export_and_reset_partitions (h : Heap) (l : Log) (hr : Reach h l) :
+    (exportAndReset h).2 = .log (l.filter fun e => e.done) ∧
+    Reach (exportAndReset h).1 (l.filter fun e => !e.done) := by
+  have := step_sim h l 0 .xreset hr
+  exact ⟨this.2, this.1⟩
+
+theorem reset_empties (h : Heap) (l : Log) (hr : Reach h l) : Reach (reset h) [] :=
+  (step_sim h l 0 .reset hr).1
+
+/-! ### Histories -/
+
+/-- Export after any history lists the log of that history. -/
+theorem export_lists_log (pre : List Op) :
+    run init 0 (pre ++ [.exp]) = run init 0 pre ++ [.log (logAfter pre)] := by
+  rw [heap_refines_spec, heap_refines_spec, Spec.run_append]; rfl
+
+/-- Export-and-reset after any history returns the completed entries and leaves the pending ones. -/
+theorem export_and_reset_after (pre : List Op) :
+    run init 0 (pre ++ [.xreset]) = run init 0 pre ++ [.log ((logAfter pre).filter fun e => e.done)] ∧
+    logAfter (pre ++ [.xreset]) = (logAfter pre).filter fun e => !e.done := by
+  refine ⟨?_, ?_⟩
+  · rw [heap_refines_spec, heap_refines_spec, Spec.run_append]; rfl
+  · show Spec.after [] 0 (pre ++ [.xreset]) = _
+    rw [Spec.after_append]; rfl
+
+/-- Every list handed out by Export or ExportAndReset, at any point of any history, is in
+    request-arrival order (strictly increasing arrival index, hence no entry twice). -/
+theorem exports_in_arrival_order (ops : List Op) (es : List Ent)
+    (h : Obs.log es ∈ run init 0 ops) : (rqs es).Pairwise (· < ·) := by
+  rw [heap_refines_spec] at h
+  exact sorted_outputs ops [] 0 (WF_nil 0) es h
+
+/-- Over the whole life of the log no request is returned by export-and-reset more than once. -/
+theorem returned_at_most_once (ops : List Op) :
+    (rqs (returned ops (run init 0 ops))).Nodup := by
+  rw [heap_refines_spec]
+  exact (returned_inv ops [] 0 (WF_nil 0)).1
+
+/-- Export-and-reset never returns a pending entry. -/
+theorem returned_are_completed (ops : List Op) :
+    ∀ e ∈ returned ops (run init 0 ops), e.done = true := by
+  rw [heap_refines_spec]
+  exact returned_done ops [] 0
+
+/-- An entry that is complete, or whose response arrives before the next export-and-reset (with no
+    reset in between), is returned by that export-and-reset with its own request. Together with
+    `returned_at_most_once`: exactly once. -/
+theorem completed_returned_by_next_export_and_reset (pre mid : List Op) (e : Ent)
+    (he : e ∈ logAfter pre) (hq : ∀ o ∈ mid, quiet o = true)
+    (hc : e.done = true ∨ Op.res e.id ∈ mid) :
+    ∃ es e', run init 0 (pre ++ mid ++ [.xreset]) = run init 0 (pre ++ mid) ++ [.log es] ∧
+      e' ∈ es ∧ e'.id = e.id ∧ e'.rq = e.rq ∧ e'.done = true := by
+  obtain ⟨e', h1, h2, h3, h4⟩ := after_quiet mid (logAfter pre) (0 + pre.length) e he hq
+  have hd : e'.done = true := by
+    rw [h4]
+    rcases hc with hc | hc
+    · simp [hc]
+    · have : mid.any (fun o => o == Op.res e.id) = true := by
+        rw [List.any_eq_true]; exact ⟨_, hc, by simp⟩
+      simp [this]
+  refine ⟨_, e', (export_and_reset_after (pre ++ mid)).1, ?_, h2, h3, hd⟩
+  show e' ∈ (Spec.after [] 0 (pre ++ mid)).filter _
+  rw [Spec.after_append, List.mem_filter]
+  exact ⟨h1, hd⟩
+
+/-- A pending entry whose response has not arrived is kept by export-and-reset (still pending, same
+    request), so it is listed by later exports and — by the previous theorem applied to the longer
+    history — returned by a later export-and-reset once completed. -/
+theorem pending_kept_by_export_and_reset (pre mid : List Op) (e : Ent)
+    (he : e ∈ logAfter pre) (hq : ∀ o ∈ mid, quiet o = true)
+    (hp : e.done = false) (hn : Op.res e.id ∉ mid) :
+    ∃ e' ∈ logAfter (pre ++ mid ++ [.xreset]), e'.id = e.id ∧ e'.rq = e.rq ∧ e'.done = false := by
+  obtain ⟨e', h1, h2, h3, h4⟩ := after_quiet mid (logAfter pre) (0 + pre.length) e he hq
+  have hd : e'.done = false := by
+    rw [h4, hp]
+    have : mid.any (fun o => o == Op.res e.id) = false := by
+      rw [Bool.eq_false_iff]; intro ha
+      rw [List.any_eq_true] at ha
+      obtain ⟨o, ho, hoe⟩ := ha
+      have : o = Op.res e.id := by simpa using hoe
+      exact hn (this ▸ ho)
+    simp [this]
+  refine ⟨e', ?_, h2, h3, hd⟩
+  rw [(export_and_reset_after (pre ++ mid)).2]
+  show e' ∈ (Spec.after [] 0 (pre ++ mid)).filter _
+  rw [Spec.after_append, List.mem_filter]
+  exact ⟨h1, by simp [hd]⟩
+
+/-- "Each response attached to its own request": in every list handed out at any point of any
+    history, an entry's request is the `req` operation of its ID that the tag names, and its
+    response (if any) is a later `res` operation of the same ID. -/
+theorem each_response_attached_to_own_request (ops : List Op) (es : List Ent)
+    (h : Obs.log es ∈ run init 0 ops) :
+    ∀ e ∈ es, ops[e.rq]? = some (.req e.id) ∧
+      ∀ j, e.rs = some j → ops[j]? = some (.res e.id) ∧ e.rq < j := by
+  rw [heap_refines_spec] at h
+  have := own_outputs ops [] [] (by simp) es (by simpa using h)
+  simpa [Own] using this
+
+/-- At every point of every history: IDs in the log are pairwise different, entries are in
+    arrival order, and every entry was recorded before "now". -/
+theorem log_well_formed (ops : List Op) : WF (logAfter ops) ops.length := WF_logAfter ops
+
+/-- After a reset the log is empty, and a late response for a reset ID is ignored. -/
+theorem response_after_reset_ignored (pre : List Op) (id : String) :
+    logAfter (pre ++ [.reset]) = [] ∧ logAfter (pre ++ [.reset, .res id]) = [] := by
+  constructor
+  · show Spec.after [] 0 (pre ++ [.reset]) = []
+    rw [Spec.after_append]; rfl
+  · show Spec.after [] 0 (pre ++ [.reset, .res id]) = []
+    rw [Spec.after_append]; rfl
+
+/-! ### Non-vacuity (concrete tests; `decide`/`rfl` on closed terms) -/
+
+/-- tail completed, head pending, re-use of the ID after it was returned. -/
+example : run init 0 [.req "a", .req "b", .req "c", .res "c", .res "a", .xreset, .exp, .req "a", .res "b", .xreset, .exp]
+    = [.ok, .ok, .ok, .ok, .ok, .log [⟨"a", 0, some 4⟩, ⟨"c", 2, some 3⟩], .log [⟨"b", 1, none⟩], .ok, .ok,
+       .log [⟨"b", 1, some 8⟩], .log [⟨"a", 7, none⟩]] := by decide
+
+/-- duplicate rejected; reset; orphan response. -/
+example : run init 0 [.req "a", .req "a", .reset, .res "a", .exp, .req "a", .exp]
+    = [.ok, .dup, .ok, .ok, .log [], .ok, .log [⟨"a", 5, none⟩]] := by decide
+
+/-- hypotheses of `completed_returned_by_next_export_and_reset` / `pending_kept_…` are satisfiable. -/
+example : (⟨"a", 0, none⟩ : Ent) ∈ logAfter [.req "a", .req "b"] ∧
+    (∀ o ∈ [Op.req "c", Op.res "a", Op.exp], quiet o = true) ∧ Op.res "a" ∈ [Op.req "c", Op.res "a", Op.exp] ∧
+    (⟨"b", 1, none⟩ : Ent) ∈ logAfter [.req "a", .req "b"] ∧ Op.res "b" ∉ [Op.req "c", Op.res "a", Op.exp] := by decide
+
+example : Spec.hasId (logAfter [.req "a"]) "a" = true ∧ Spec.hasId (logAfter [.req "a"]) "b" = false := by decide
+
+end Martian.Props.C17
